@@ -13,7 +13,11 @@ Section C10.
   Variable outc : rec -> rec -> list (nat -> tv).
   Notation score_row := (score_row rec pow cmps outc).
 
-  (* Every row of every entry point is the ONE scorer applied to (l, r, tf l, tf r) with that entry
+  (* BY CONSTRUCTION of the composition model (every ep_* is defined as filter . map score_row . candidates):
+     this theorem documents the model, it is not evidence about the five SQL paths.  The evidence that the
+     real entry points compute one and the same scoring is C10_entry_point_sql_agrees below (applied on every
+     run to the skeletons extracted from the SQL each entry point executed) together with X.
+     Every row of every entry point is the ONE scorer applied to (l, r, tf l, tf r) with that entry
      point's TF sources; therefore two rows (of any two entry points) for the same pair are equal -
      same comparison levels (gamma), same Bayes factors, same match weight - whenever the TF sources
      agree on the two records. *)
@@ -60,23 +64,28 @@ Section C10.
       (NoDup C -> NoDup (map fst (ep_missing_edges rec pow prior cmps outc adm cluster in_pred tf T C))).
   Proof. intros. split; [intros; apply in_ep_missing_edges|apply missing_edges_pairs_once]. Qed.
 
-  (* when do the TF sources agree: an ad-hoc record's tf is the linker's own tf for that value when
-     it is looked up in the registered table / by select distinct from the linker's data; a value the
-     data does not contain gets NULL (and then, C02, no adjustment) *)
+  (* TF of an ad-hoc record as a function of the cache state (own tf_ column supplied? tf table cached? concat
+     table cached?).  `src` is ANY source-selection function that agrees with route_priority on the eight states;
+     the function regenerated on every run from the SQL that _join_new_table_to_df_concat_with_tf_sql emits is
+     shown to do so in coq/gen/C10_tfjoin_gen.v (obligation tf_join_source_is_route_priority), and this theorem is
+     then instantiated with it.  Not supplied + table cached: the linker's own value under that table, whether or
+     not the concat table is cached too; no table + concat table cached: the linker's own data-derived value;
+     nothing cached: NULL. *)
   Variable V : Type.
   Variable veqb : V -> V -> bool.
   Variable value : nat -> rec -> option V.
 
-  Theorem C10_adhoc_tf_agrees :
-    forall D route registered supplied r k,
-      match route k, registered k with
-      | DistinctFromConcat _, None => True
-      | Registered _ tbl, Some tbl' => tbl = tbl'
-      | Supplied _, _ => supplied r k = data_tf rec V veqb value D registered r k
-      | _, _ => False
-      end ->
-      adhoc_tf rec V veqb value D route supplied r k = data_tf rec V veqb value D registered r k.
-  Proof. intros. apply adhoc_agrees_with_data; auto. Qed.
+  Theorem C10_adhoc_tf_by_cache_state :
+    forall (D : list rec) (src : bool -> bool -> bool -> route_kind),
+      (forall s t c, src s t c = route_priority s t c) ->
+      forall (supplied_col table_cached : nat -> bool) (concat_cached : bool) (tbl : nat -> list (V * Q)) supplied r k,
+        adhoc_tf rec V veqb value D
+                 (fun k => route_of (src (supplied_col k) (table_cached k) concat_cached) (tbl k)) supplied r k
+        = if supplied_col k then supplied r k
+          else if table_cached k then data_tf rec V veqb value D (fun k => Some (tbl k)) r k
+          else if concat_cached then data_tf rec V veqb value D (fun _ => None) r k
+          else None.
+  Proof. exact (adhoc_tf_by_cache_state rec V veqb value). Qed.
 
   Theorem C10_unseen_value_has_null_tf :
     forall D k x, (forall d, In d D -> has_value rec V veqb value k x d = false) ->
@@ -86,7 +95,7 @@ End C10.
 Print Assumptions C10_same_score_when_same_tf.
 Print Assumptions C10_find_matches_exact_set.
 Print Assumptions C10_missing_edges_exact_set.
-Print Assumptions C10_adhoc_tf_agrees.
+Print Assumptions C10_adhoc_tf_by_cache_state.
 Print Assumptions C10_unseen_value_has_null_tf.
 
 (* the LEFT JOIN ... ON both keys ... WHERE both NULL that the translator finds in the emitted
@@ -107,16 +116,18 @@ Example C10_example_anti_join :
   = [(2, 1)]%nat.
 Proof. vm_compute. auto. Qed.
 
-(* TF route priority for ad-hoc records: the cached tf table (registered or computed) is used whenever it
-   exists - also when the concat table is cached too; select distinct from the concat table only without it *)
-Theorem C10_adhoc_route_priority :
-  forall (rec V : Type) veqb (value : nat -> rec -> option V) D route supplied r k tbl,
-    (forall cc, route k = route_of (route_priority false true cc) tbl ->
-       adhoc_tf rec V veqb value D route supplied r k = lookup_tbl V veqb tbl (value k r)) /\
-    (route k = route_of (route_priority false false true) tbl ->
-       adhoc_tf rec V veqb value D route supplied r k = tf_of_data rec V veqb value D k (value k r)).
-Proof. intros. split; [intros cc; apply registered_table_wins|apply distinct_only_without_table]. Qed.
-Print Assumptions C10_adhoc_route_priority.
+(* SQL-shaped model of each entry point: the scoring skeletons extracted from the SQL an entry point really
+   executed, evaluated stage by stage (run_pipeline).  If the per-run obligation pipeline_eqb sk_ep sk_predict
+   holds, the entry point's rows equal predict()'s on EVERY tf environment and outcome vector: same gamma
+   columns, same Bayes-factor and TF-adjustment columns, same argument of log2 (match weight), same probability
+   (up to == on rationals), for every POW that respects ==. *)
+Theorem C10_entry_point_sql_agrees :
+  forall pow, (forall a a' b b', a == a' -> b == b' -> pow a b == pow a' b') ->
+  forall (sk_ep sk_predict : pipeline) tfs outcs,
+    pipeline_eqb sk_ep sk_predict = true ->
+    out_rel (run_pipeline pow sk_ep tfs outcs) (run_pipeline pow sk_predict tfs outcs).
+Proof. intros pow Hp a b tfs outcs H. apply pipeline_agrees; auto. Qed.
+Print Assumptions C10_entry_point_sql_agrees.
 
 (* non-vacuity: three records 0,1,2 (value = id mod 2), one exact-match comparison *)
 Definition ex_cmp : list level :=
@@ -152,4 +163,14 @@ Example C10_example_missing_edges :
   let me' := ep_missing_edges nat ex_pow (1 # 2) [ex_cmp] ex_outc Nat.ltb
               (fun r => Some (Z.of_nat (Nat.modulo r 2))) (fun l r => Nat.eqb l 0 && Nat.eqb r 2) ex_tf None [0; 1; 2; 4]%nat in
   map fst me = [(0, 2); (0, 4); (2, 4)]%nat /\ map fst me' = [(0, 4); (2, 4)]%nat.
+Proof. vm_compute. auto. Qed.
+
+(* the model's own pipeline evaluates to the model's score (27/20, see above); a pipeline with another prior is
+   rejected by pipeline_eqb *)
+Example C10_example_pipeline :
+  let pl := model_pipeline (1 # 2) [ex_cmp] in
+  let out := run_pipeline ex_pow pl (fun _ => (Some (2 # 3), Some (2 # 3))) [fun _ => T] in
+  pipeline_eqb pl pl = true /\ pipeline_eqb pl (model_pipeline (1 # 3) [ex_cmp]) = false /\
+  o_gammas out = [Some (Fin (inject_Z 1))] /\
+  match o_weight_arg out with Some x => xq_eqb x (Fin (27 # 20)) | None => false end = true.
 Proof. vm_compute. auto. Qed.
